@@ -71,6 +71,22 @@ def encExcept {α : Type} [Codec α] : Except PyExc α → List Int
   | .ok v => 1 :: Codec.enc v
   | .error e => [0, excCode e]
 
+-- sets are compared as sets: encoded in the lexicographic order of their elements' encodings
+def lexLt : List Int → List Int → Bool
+  | [], [] => false
+  | [], _ :: _ => true
+  | _ :: _, [] => false
+  | a :: as, b :: bs => if a < b then true else if b < a then false else lexLt as bs
+def insLex (x : List Int) : List (List Int) → List (List Int)
+  | [] => [x]
+  | y :: ys => if lexLt x y then x :: y :: ys else y :: insLex x ys
+instance {α : Type} [DecidableEq α] [Codec α] : Codec (PyRt.Set α) :=
+  ⟨fun t => match (Codec.dec t : Option (List α × List Int)) with
+    | some (l, r) => some (PyRt.Set.ofList l, r)
+    | none => none,
+   fun s => (((PyRt.Set.toList s).length : Int)) ::
+     (((PyRt.Set.toList s).map Codec.enc).foldr insLex []).flatten⟩
+
 def showInts (l : List Int) : String := " ".intercalate (l.map toString)
 def parseInts (s : String) : Option (List Int) :=
   ((s.trim.splitOn " ").filter (· ≠ "")).mapM String.toInt?
@@ -103,6 +119,12 @@ def enc(t, v, out):
         for kk, x in v.items():
             enc(t[1], kk, out)
             enc(t[2], x, out)
+    elif k == 'Set':
+        if not isinstance(v, (set, frozenset)):
+            raise ValueError('not a set: %r' % (v,))
+        out.append(len(v))
+        for e in sorted(canon(t[1], x) for x in v):
+            out.extend(e)
     elif k == 'Str':
         out.append(len(v))
         out.extend(ord(c) for c in v)
@@ -143,6 +165,8 @@ def lean_type(t):
         return 'Unit'
     if k == 'Dict':
         return '(PyRt.Dict %s %s)' % (lean_type(t[1]), lean_type(t[2]))
+    if k == 'Set':
+        return '(PyRt.Set %s)' % lean_type(t[1])
     if k in ('Int', 'Bool'):
         return k
     if k == 'Str':
@@ -179,6 +203,8 @@ def to_py(t, v, in_dict=False):
         return parts if in_dict else tuple(parts)
     if k == 'List':
         return [to_py(t[1], x) for x in v]
+    if k == 'Set':
+        return set(to_py(t[1], x) for x in v)
     if k == 'Option':
         return None if v is None else to_py(t[1], v)
     return v
@@ -203,6 +229,15 @@ def call_method(spec, fn, case):
         dict.update(peer, to_py(py2lean.parse_type(cls['state'][other]), case['self'][other]))
         setattr(obj, pa, peer)
         setattr(peer, pa, obj)
+    elif cls.get('paths'):
+        # state fields reached through a path of attributes (`self.inv.data`): built by the class's own __init__
+        obj = pycls()
+        inv_paths = {f: p for p, f in cls['paths'].items()}
+        for a, tt in cls['state'].items():
+            tgt, parts = obj, (inv_paths[a] if a in inv_paths else a).split('.')
+            for part in parts[:-1]:
+                tgt = getattr(tgt, part)
+            setattr(tgt, parts[-1], to_py(py2lean.parse_type(tt), case['self'][a]))
     else:
         for a, tt in cls['state'].items():
             setattr(obj, a, to_py(py2lean.parse_type(tt), case['self'][a]))
@@ -231,6 +266,14 @@ def call_method(spec, fn, case):
         res = ('exc', type(e).__name__)
     if cls.get('dict_base'):
         return res, {base: dict(dict.items(obj)), other: dict(dict.items(getattr(obj, pa)))}
+    if cls.get('paths'):
+        out = {}
+        for a in cls['state']:
+            tgt = obj
+            for part in (inv_paths[a] if a in inv_paths else a).split('.'):
+                tgt = getattr(tgt, part)
+            out[a] = tgt
+        return res, out
     return res, {a: getattr(obj, a) for a in cls['state']}
 
 
@@ -437,7 +480,59 @@ def fam_oto(method):
     return fam
 
 
+def _m2m_states(rng, quick):
+    import importlib
+    pycls = importlib.import_module('boltons.dictutils').ManyToMany
+
+    def snap(m):
+        return {'data': {k: set(v) for k, v in m.data.items()}, 'inv_data': {k: set(v) for k, v in m.inv.data.items()}}
+    for _ in range(15 if quick else 150):
+        m = pycls()
+        yield snap(m)
+        for _ in range(rng.randint(1, 12)):
+            try:
+                if rng.random() < 0.7:
+                    m.add(rng.choice(OTO_KEYS), rng.choice(OTO_KEYS))
+                else:
+                    m.remove(rng.choice(OTO_KEYS), rng.choice(OTO_KEYS))
+            except KeyError:
+                pass
+            yield snap(m)
+    for _ in range(30 if quick else 300):          # two dicts that are not transposes of each other
+        yield {'data': {k: set(rng.sample(OTO_KEYS, rng.randint(0, 3))) for k in rng.sample(OTO_KEYS, rng.randint(0, 4))},
+               'inv_data': {k: set(rng.sample(OTO_KEYS, rng.randint(0, 3))) for k in rng.sample(OTO_KEYS, rng.randint(0, 4))}}
+
+
+def fam_m2m(method):
+    def fam(rng, quick):
+        for st in _m2m_states(rng, quick):
+            for _ in range(2):
+                case = {'self': st}
+                key = rng.choice(list(st['data']) or OTO_KEYS) if rng.random() < 0.6 else rng.choice(OTO_KEYS)
+                if method in ('add', 'remove'):
+                    vals = sorted(st['data'].get(key, ())) or OTO_KEYS
+                    case.update(key=key, val=rng.choice(vals) if rng.random() < 0.6 else rng.choice(OTO_KEYS))
+                elif method in ('getitem', 'contains'):
+                    case.update(key=key)
+                elif method == 'get':
+                    case.update(key=key, default_=set(rng.sample(OTO_KEYS, rng.randint(0, 2))))
+                elif method == 'update_pairs':
+                    case['iterable'] = [(rng.choice(OTO_KEYS), rng.choice(OTO_KEYS)) for _ in range(rng.randint(0, 4))]
+                elif method == 'update_dict':
+                    case['iterable'] = {rng.choice(OTO_KEYS): rng.choice(OTO_KEYS) for _ in range(rng.randint(0, 4))}
+                yield case
+    return fam
+
+
 FAMILIES = {
+    'ManyToMany.add': fam_m2m('add'),
+    'ManyToMany.remove': fam_m2m('remove'),
+    'ManyToMany.getitem': fam_m2m('getitem'),
+    'ManyToMany.get': fam_m2m('get'),
+    'ManyToMany.contains': fam_m2m('contains'),
+    'ManyToMany.len': fam_m2m('len'),
+    'ManyToMany.update_pairs': fam_m2m('update_pairs'),
+    'ManyToMany.update_dict': fam_m2m('update_dict'),
     'OneToOne.delitem': fam_oto('delitem'),
     'OneToOne.setitem': fam_oto('setitem'),
     'OneToOne.clear': fam_oto('clear'),
